@@ -6,6 +6,25 @@ facts that precede it on the same path by a small set of linear rules (no solver
 path facts, classified by what its operands depend on."""
 import re
 from .symex import is_const, cint, mk_const, subterms, fold_bin, show
+from . import linear
+
+# ensures summaries of repository callees that are not inlined (loops): (callee regex, description, fact builder).
+# Each is itself verified on the callee's MIR by check_ensures() in the rule modules that rely on it.
+ENSURES = [
+    (r"^rln::utils::bytes_le_to_vec_(fr|u8)$", "returned read count <= len(input)",
+     lambda call: [(("field", ("unwrap", call), ("f", "1")), ("len", call[2][0]))]),
+]
+
+
+def ensures_hook(a, lf):
+    """atoms of the form unwrap(f(arg)).1 for callees with an ensures summary"""
+    if isinstance(a, tuple) and a and a[0] == "field" and isinstance(a[1], tuple) and a[1] and a[1][0] == "unwrap":
+        c = a[1][1]
+        if isinstance(c, tuple) and c and c[0] == "call" and isinstance(c[1], str):
+            for rx, _, build in ENSURES:
+                if re.search(rx, c[1]):
+                    for x, y in build(c):
+                        lf.add_le(x, y)
 
 SMALL = 1 << 40
 
@@ -19,6 +38,8 @@ class Facts:
         self.notok = set()
         self.true = set()
         self.false = set()
+        self.lf = linear.LinFacts()
+        self.lf.hook = ensures_hook
 
     def add_cond(self, atom, val):
         if val is None:
@@ -56,9 +77,11 @@ class Facts:
             self._add("<=", y, x)
         elif op == "Eq":
             self.rel.append(("==", x, y))
+            self.lf.add_eq(x, y)
 
     def _add(self, op, x, y):
         self.rel.append((op, x, y))
+        self.lf.add_le(x, y, strict=(op == "<"))
         # x <= u - c  ==>  x + c <= u   (the subtraction itself carries its own no-underflow obligation)
         if isinstance(y, tuple) and y and y[0] == "bin" and y[1] == "Sub":
             self.rel.append((op, fold_bin("Add", x, y[3]), y[2]))
@@ -95,6 +118,18 @@ class Facts:
         """is a <= b derivable?"""
         if a == b:
             return True
+        if depth == 0 and self._le_old(a, b, 0):
+            return True
+        if depth == 0:
+            try:
+                return self.lf.le(a, b)
+            except RecursionError:
+                return False
+        return self._le_old(a, b, depth)
+
+    def _le_old(self, a, b, depth=0):
+        if a == b:
+            return True
         ca, cb = cint(a), cint(b)
         if ca is not None and cb is not None:
             return ca <= cb
@@ -109,7 +144,7 @@ class Facts:
         bx, bc = split_const(b)
         for op, x, y in self.rel:
             if op == "==":
-                if (x == a and self.le(y, b, depth + 1)) or (y == a and self.le(x, b, depth + 1)):
+                if (x == a and self._le_old(y, b, depth + 1)) or (y == a and self._le_old(x, b, depth + 1)):
                     return True
                 continue
             slack = 1 if op == "<" else 0
@@ -118,17 +153,17 @@ class Facts:
             # fact: xx + xc (+slack) <= yx + yc ; goal: ax + ac <= bx + bc
             if xx == ax and yx == bx and (ac - xc - slack) <= (bc - yc):
                 return True
-            if xx == ax and (ac - xc - slack) <= 0 and yx is not None and depth < 3 and self.le(y, b, depth + 1) and yc >= 0:
-                if self.le(y, b, depth + 1):
+            if xx == ax and (ac - xc - slack) <= 0 and yx is not None and depth < 3 and self._le_old(y, b, depth + 1) and yc >= 0:
+                if self._le_old(y, b, depth + 1):
                     return True
         # len(slice(B, lo, None)) = len(B) - lo
         if isinstance(b, tuple) and b and b[0] == "len" and isinstance(b[1], tuple) and b[1] and b[1][0] == "slice":
             s = b[1]
             if s[3] is None:
-                return self.le(fold_bin("Add", a, s[2]), ("len", s[1]), depth + 1)
-            return self.le(a, fold_bin("Sub", s[3], s[2]), depth + 1)
+                return self._le_old(fold_bin("Add", a, s[2]), ("len", s[1]), depth + 1)
+            return self._le_old(a, fold_bin("Sub", s[3], s[2]), depth + 1)
         if isinstance(b, tuple) and b and b[0] == "bin" and b[1] == "Sub":
-            return self.le(fold_bin("Add", a, b[3]), b[2], depth + 1)
+            return self._le_old(fold_bin("Add", a, b[3]), b[2], depth + 1)
         return False
 
     def lt(self, a, b):
@@ -161,6 +196,8 @@ def fixed_len(t):
         return fixed_len(t[1])
     if t[0] == "call" and re.search(r"<impl (usize|u64)>::to_le_bytes$", t[1]):
         return 8
+    if t[0] == "slice" and isinstance(t[1], tuple) and cint(t[2]) is not None and t[3] is not None and cint(t[3]) is not None:
+        return cint(t[3]) - cint(t[2])
     if t[0] == "unwrap" and isinstance(t[1], tuple) and t[1][0] == "call" and "[u8; 8_usize]" in t[1][1]:
         return 8
     return None
@@ -179,8 +216,36 @@ def len_term(base):
 
 def len_bounded(t, facts, loop_inv):
     """t <= some in-memory length (hence t + small cannot overflow usize)"""
+    if _len_bounded_old(t, facts, loop_inv):
+        return True
+    # linear: t <= L + 2^40 for some in-memory length L mentioned on this path
+    lf = getattr(facts, "lf", None)
+    if lf is None:
+        return False
+    lens = set()
+    for f in lf.facts:
+        for a in f[0]:
+            if isinstance(a, tuple) and a and a[0] == "len":
+                lens.add(a)
+    for s_ in subterms(t):
+        if s_[0] == "len":
+            lens.add(s_)
+    for L in sorted(lens, key=repr)[:6]:
+        try:
+            if lf.le(t, fold_bin("Add", L, mk_const("usize", SMALL))):
+                return True
+        except RecursionError:
+            pass
+    return False
+
+
+def _len_bounded_old(t, facts, loop_inv):
     if cint(t) is not None:
         return cint(t) < SMALL
+    if isinstance(t, tuple) and t and t[0] == "bin" and t[1] == "Mul" and cint(t[3]) is not None and cint(t[3]) <= 64 and _len_bounded_old(t[2], facts, loop_inv):
+        return True     # in-memory lengths are < 2^48 (stated assumption): (len + small) * small cannot overflow
+    if isinstance(t, tuple) and t and t[0] == "bin" and t[1] == "Add" and _len_bounded_old(t[2], facts, loop_inv) and _len_bounded_old(t[3], facts, loop_inv):
+        return True
     if not isinstance(t, tuple) or not t:
         return False
     if t[0] == "len":
@@ -231,8 +296,20 @@ def facts_of(trace, upto):
     return f
 
 
+def fold_fixed_lens(t):
+    """replace len(x) by a constant where x has a statically known length (arrays, to_le_bytes, repeat)"""
+    if not isinstance(t, tuple) or not t:
+        return t
+    if t[0] == "len":
+        n = fixed_len(t[1])
+        if n is not None:
+            return mk_const("usize", n)
+    return tuple(fold_fixed_lens(x) if isinstance(x, tuple) else x for x in t)
+
+
 def discharge(kind, ops, facts, loop_inv, cond=None, expected=None):
     """returns None when discharged, else a human-readable obligation text"""
+    ops = tuple(fold_fixed_lens(o) if isinstance(o, tuple) else o for o in ops)
     if kind == "SliceIndex":
         base, lo, hi = ops
         L = len_term(base)
@@ -328,10 +405,60 @@ def mentions(t, pred):
     return False
 
 
+def induction_vars(paths):
+    """{phi: (init, k, lo)}: loop-carried variables that advance by the constant k on every back edge of a
+    `for i in lo..hi` loop, i.e. phi = init + k * (i - lo) inside the body"""
+    cand = {}
+    bad = set()
+    for b in paths:
+        if b.kind != "backedge":
+            continue
+        phis = None
+        for e in b.trace:
+            if e[0] == "phis" and e[2] == b.loop:
+                phis = e[3]
+        if not phis:
+            continue
+        rng = None
+        for e in b.trace:
+            if e[0] == "call" and e[1].endswith("Range<A>>::next") and e[2] and isinstance(e[2][0], tuple) and e[2][0][0] == "phi" and e[2][0][2] == b.loop:
+                it = e[2][0]
+                if isinstance(it[4], tuple) and it[4][0] == "adt" and it[4][1].endswith("ops::Range"):
+                    rng = (("unwrap", ("call", e[1], e[2])), it[4][4][0])
+        for cell, phi in phis:
+            newv = b.store.get(cell)
+            if rng is None or not (isinstance(newv, tuple) and newv[0] == "bin" and newv[1] == "Add" and newv[2] == phi and cint(newv[3]) and cint(newv[3]) > 0):
+                if newv != phi:
+                    bad.add(phi)
+                continue
+            k = cint(newv[3])
+            old = cand.get(phi)
+            if old is not None and (old[1] != k or old[3] != rng[0]):
+                bad.add(phi)
+            cand[phi] = (phi[4], k, rng[1], rng[0])
+    return {p: v for p, v in cand.items() if p not in bad}
+
+
+def facts_with_induction(trace, upto, ind):
+    f = facts_of(trace, upto)
+    if ind:
+        present = set()
+        for e in trace[:upto]:
+            if e[0] == "call" and e[1].endswith("Range<A>>::next"):
+                present.add(("unwrap", ("call", e[1], e[2])))
+        for phi, (init, k, lo, i) in ind.items():
+            if i in present:
+                # phi = init + k*(i - lo)
+                rhs = fold_bin("Add", init, fold_bin("Mul", fold_bin("Sub", i, lo) if cint(lo) != 0 else i, mk_const("usize", k)))
+                f.lf.add_eq(phi, rhs)
+    return f
+
+
 def analyse(paths, classify=None, skip_site=None):
     """returns (n_obligations, n_discharged, undischarged list).
     undischarged entries: dict(kind, text, site, facts, cls)"""
     inv = loop_invariants(paths)
+    ind = induction_vars(paths)
     seen = {}
     total = 0
     done = 0
@@ -343,7 +470,7 @@ def analyse(paths, classify=None, skip_site=None):
             if skip_site and skip_site(site, kind):
                 continue
             total += 1
-            f = facts_of(p.trace, i)
+            f = facts_with_induction(p.trace, i, ind)
             r = discharge(kind, ops, f, inv, e[4] if len(e) > 4 else None, e[5] if len(e) > 5 else None)
             key = (site[0], kind, r)
             if r is None:
